@@ -7,11 +7,11 @@ pub fn read_message<R: Read>(r: &mut R) -> Result<Message, RepeError> {
     let mut hdr_buf = [0u8; HEADER_SIZE];
     read_exact(r, &mut hdr_buf)?;
     let header = Header::decode(&hdr_buf)?;
-    let mut query = vec![0u8; header.query_length as usize];
+    let mut query = zeroed_wire_buf(header.query_length as usize)?;
     if !query.is_empty() {
         read_exact(r, &mut query)?;
     }
-    let mut body = vec![0u8; header.body_length as usize];
+    let mut body = zeroed_wire_buf(header.body_length as usize)?;
     if !body.is_empty() {
         read_exact(r, &mut body)?;
     }
@@ -35,9 +35,27 @@ pub fn read_message_into<R: Read>(r: &mut R, buf: &mut Vec<u8>) -> Result<(), Re
     read_exact(r, &mut buf[..HEADER_SIZE])?;
     let header = Header::decode(&buf[..HEADER_SIZE])?;
     let total = HEADER_SIZE + header.query_length as usize + header.body_length as usize;
+    reserve_wire_buf(buf, total - HEADER_SIZE)?;
     buf.resize(total, 0);
     read_exact(r, &mut buf[HEADER_SIZE..total])?;
     Ok(())
+}
+
+/// Zero-filled buffer for a length that was read off the wire. The length is
+/// whatever the peer declared, so the space is reserved fallibly: an absurd
+/// size becomes an error instead of aborting the process in the allocator.
+pub(crate) fn zeroed_wire_buf(len: usize) -> Result<Vec<u8>, RepeError> {
+    let mut buf = Vec::new();
+    reserve_wire_buf(&mut buf, len)?;
+    buf.resize(len, 0);
+    Ok(buf)
+}
+
+/// Fallibly make room for `additional` more bytes of a wire-declared length.
+pub(crate) fn reserve_wire_buf(buf: &mut Vec<u8>, additional: usize) -> Result<(), RepeError> {
+    buf.try_reserve_exact(additional).map_err(|e| {
+        RepeError::Io(std::io::Error::new(std::io::ErrorKind::OutOfMemory, e))
+    })
 }
 
 /// Write a full REPE message to a stream implementing `Write`.
